@@ -24,6 +24,7 @@ package core
 //@ smt (define-fun gcIdx ((kv (Array Bytes Bytes)) (has (Array Bytes Bool)) (ids (Array (_ BitVec 64) Bytes)) (n (_ BitVec 64))) Bool (forall ((i (_ BitVec 64))) (! (=> (bvult i n) (and (select has (heightKey i)) (= (select kv (heightKey i)) (select ids i)) (select has (select ids i)) (isGroupId (select ids i)) (isGroupJson (select kv (select ids i))) (= (decId (select kv (select ids i))) (select ids i)) (= (decHeight (select kv (select ids i))) i) (=> (bvugt i (_ bv0 64)) (= (decPre (select kv (select ids i))) (select ids (bvsub i (_ bv1 64))))))) :pattern ((heightKey i)) :pattern ((select ids i)))))
 //@ smt (define-fun gcAbove ((has (Array Bytes Bool)) (n (_ BitVec 64))) Bool (forall ((i (_ BitVec 64))) (! (=> (bvuge i n) (not (select has (heightKey i)))) :pattern ((heightKey i)))))
 //@ smt (define-fun gcDistinct ((ids (Array (_ BitVec 64) Bytes)) (n (_ BitVec 64))) Bool (forall ((i (_ BitVec 64)) (j (_ BitVec 64))) (! (=> (and (bvult i n) (bvult j n) (not (= i j))) (not (= (select ids i) (select ids j)))) :pattern ((select ids i) (select ids j)))))
+//@ smt (define-fun gcLinked ((kv (Array Bytes Bytes)) (ids (Array (_ BitVec 64) Bytes)) (n (_ BitVec 64))) Bool (forall ((i (_ BitVec 64))) (! (=> (and (bvult (_ bv0 64) i) (bvult i n)) (= (decPre (select kv (select ids i))) (select ids (bvsub i (_ bv1 64))))) :pattern ((select ids i)))))
 //@ smt (define-fun gcWF ((kv (Array Bytes Bytes)) (has (Array Bytes Bool)) (ids (Array (_ BitVec 64) Bytes)) (n (_ BitVec 64)) (cur Bytes) (cnt Bytes)) Bool (and (gcKeys cur cnt) (gcHead kv has ids n cur cnt) (gcIdx kv has ids n) (gcAbove has n) (gcDistinct ids n)))
 
 // json of a group: decoding the encoding gives back id, predecessor and height (trusted: encoding/json).
@@ -77,6 +78,8 @@ package core
 //@   ensures [wf.index]    result && group != nil ==> @gcIdx(@select(ghost(kv), ref(chain.groups)), @select(ghost(kvhas), ref(chain.groups)), @gids, chain.count)
 //@   ensures [wf.above]    result && group != nil ==> @gcAbove(@select(ghost(kvhas), ref(chain.groups)), chain.count)
 //@   ensures [mem] result && group != nil ==> chain.lastGroup != nil && bytes(chain.lastGroup.Id) == @select(@gids, chain.count - 1)
+//@   ensures [ok]  group != nil ==> result
+//@   ensures [below] group != nil ==> forall i uint64 :: i < chain.count ==> @select(@select(ghost(kv), ref(chain.groups)), @select(@gids, i)) == old(@select(@select(ghost(kv), ref(chain.groups)), @select(@gids, i)))
 //@   modifies chain.count, chain.lastGroup, ghost(kv), ghost(kvhas)
 
 //@ func groupChain.getGroupByHeight
@@ -84,8 +87,23 @@ package core
 //@   requires chain != nil && typeid(chain.groups) != 0
 //@   requires [wf] @gcWF(@select(ghost(kv), ref(chain.groups)), @select(ghost(kvhas), ref(chain.groups)), @gids, chain.count, bytes("gcurrent"), bytes("gcount"))
 //@   ensures [index] height < chain.count ==> result != nil && bytes(result.Id) == @decId(@select(@select(ghost(kv), ref(chain.groups)), @select(@gids, height))) && result.GroupHeight == height
+//@   ensures [header] height < chain.count ==> result.Header != nil && bytes(result.Header.PreGroup) == @decPre(@select(@select(ghost(kv), ref(chain.groups)), @select(@gids, height)))
 //@   ensures [above] height >= chain.count ==> result == nil
 //@   modifies nothing
+
+// Cutting the group chain back to a common ancestor (C19): groups are removed from the tip downwards - remove
+// only works on the last group (its [last] precondition) - and the chain stays well-formed and linked.
+//@ func groupChain.removeFromCommonAncestor
+//@   property C19
+//@   option maypanic ignoredefer
+//@   requires chain != nil && typeid(chain.groups) != 0 && commonAncestor != nil && commonAncestor.Header != nil && syncLogger != nil && logger != nil
+//@   requires [wf]     @gcWF(@select(ghost(kv), ref(chain.groups)), @select(ghost(kvhas), ref(chain.groups)), @gids, chain.count, bytes("gcurrent"), bytes("gcount"))
+//@   requires [linked] @gcLinked(@select(ghost(kv), ref(chain.groups)), @gids, chain.count)
+//@   loop 0: invariant @gcWF(@select(ghost(kv), ref(chain.groups)), @select(ghost(kvhas), ref(chain.groups)), @gids, chain.count, bytes("gcurrent"), bytes("gcount")) && @gcLinked(@select(ghost(kv), ref(chain.groups)), @gids, chain.count) && typeid(chain.groups) != 0
+//@   loop 0: invariant chain.count >= 1 && (chain.count > 1 ==> height == chain.count - 1) && chain.count <= old(chain.count)
+//@   ensures [wf]     @gcWF(@select(ghost(kv), ref(chain.groups)), @select(ghost(kvhas), ref(chain.groups)), @gids, chain.count, bytes("gcurrent"), bytes("gcount"))
+//@   ensures [shrunk] chain.count <= old(chain.count)
+//@   modifies chain.count, chain.lastGroup, ghost(kv), ghost(kvhas)
 
 // ---------------------------------------------------------------------------------------------
 // Fork choice (C05). Chain weight: cumulative QN first; at equal QN the chain whose block after the fork
